@@ -31,8 +31,21 @@ from . import common as C
 
 ID = "C01"
 DRIVER = "drv_c01"
-GEN = ["extract", "beacon"]
+GEN = ["extract", "beacon", "py_utils", "py_scan", "py_xor", "py_extractu"]
+EXTRA_PROP_FILES = ["Props/C01Gen.lean"]
 STREAMS = {
+    "g-ext": {"relevant": False, "desc": "BeaconConfig.from_file TRANSLATED from its source (Gen/PyExtract.lean; first-yield forms of the generators; "
+                                        "detector / key order / Guardrails scan supplied by the model, constructor by the translated __init__) vs the "
+                                        "real from_bytes / from_file / from_path on every ext / extpi / spec case: xorkey, xorencoded, config_block, "
+                                        "number of settings, Guardrails record or exception"},
+    "g-left": {"relevant": False, "desc": "the key-order statements of the all-keys retry (make_byte_list, 4-gram Counter, most_common, p8, "
+                                         "sort by .index) TRANSLATED from the source vs the real function on every case of the `left` stream"},
+    "g-first": {"relevant": False, "desc": "iter_beacon_config_blocks TRANSLATED from its source in first-yield form (Gen/PyExtract.lean; detector and "
+                                          "residual key order supplied by the model) vs next(iter_beacon_config_blocks(...), None) on every "
+                                          "ext / extpi / spec / blocks case"},
+    "g-find": {"relevant": False, "desc": "find_beacon_config_bytes (and iter_find_needle inside it) TRANSLATED from its source in first-yield form vs "
+                                         "next(find_beacon_config_bytes(fh, key), None) and fh.tell(), fh = the file or the XorEncodedFile view of it"},
+    "pyu": {"relevant": False, "desc": "the new run-time operation of Model/PyU_T01.lean that is not a dispatch (bytes.hex) against CPython"},
     "ext": {"relevant": True, "desc": "BeaconConfig.from_bytes / from_file / from_path vs C01.fromFileReal (detector, search, retry, Guardrails fallback): "
                                       "xorkey, xorencoded, config_block, settings_tuple, Guardrails record or exception"},
     "extpi": {"relevant": False, "desc": "all-keys mode with candidates under several residual keys: the winner depends on the exact "
@@ -51,12 +64,22 @@ TRUSTED = [
     "not compared (C18)",
     "collections.Counter / most_common / list.sort(key=) / itertools.zip_longest are modelled (C01.leftKeys), exercised by the `left` stream; "
     "the theorems hold for every residual key order",
+    "translation tie (Props/C01Gen.lean): tools/py2leanu.py (+ its T01 arms), tools/gen/py_extractu.py (the first-yield rewriting, the "
+    "specialisation of iter_beacon_config_blocks to xordecode=True, the statement slice of the key-order statements, the desugarings of "
+    "from_file), lean/CsVerif/Model/PyU_T01.lean (dynamic dispatch of read / seek / tell, handles, make_byte_list pinned to its source "
+    "text); external in the translated definitions: XorEncodedFile.from_file (contract XffSpec), the key-order statements (contract LeftSpec; "
+    "they are translated too and run in the g-* streams, their equivalence with C01.leftKeys is not proved), BeaconConfig(config_block) "
+    "(CfgSpec, satisfied by the translated __init__ of C02), pe.find_compile_stamps / find_architecture, iter_guardrail_configs_with_beacon; "
+    "the g-* streams run the translated definitions with the model's detector / Guardrails scan and the translated key order and "
+    "constructor against the real functions",
 ]
 ASSUMPTIONS = [
     "file objects are io.BytesIO or regular files opened 'rb'; XOR keys are bytes objects; io.DEFAULT_BUFFER_SIZE >= 1",
     "a successful XorEncoded detection at nonce offset c implies c + 8 <= file size (hypothesis `DetOk` of the parameterised theorems; "
     "proved for the detector the model runs, detOk_of_detectRun, and not a hypothesis of the end-to-end theorems)",
-    "generators consumed only up to the first yield behave as the prefix of the fully consumed run (from_file does not resume the generator)",
+    "generators consumed only up to the first yield behave as the prefix of the fully consumed run (from_file does not resume the generator) "
+    "— for the hand-written model this is now a theorem (C01Gen.first_yield_find / first_yield_keys); the translated definitions are the "
+    "first-yield forms themselves and need no such assumption",
 ]
 RULE = ("builder grid: settings block x key x container (raw, PE-like, XorEncoded stage, Guardrails-protected area) x offset (0, 1, around k*B, cut by EOF) x filler x "
         "decoys x key list x entry point x buffer size; distinct = hash of (stream, line); non-trivial = a configuration was returned "
@@ -482,7 +505,42 @@ def offsets_around(B, thorough):
     return sorted({x for x in o if x >= 0})
 
 
+def _first_key(keys_tok: str, exp_tok: str) -> str:
+    """a key worth scanning for: the one the builder expects to win, else the first tried key"""
+    if exp_tok.startswith("ok_x"):
+        return exp_tok.split("_")[1][1:] or "-"
+    ks = parse_keys(keys_tok)
+    k = (ks or DEFAULT_KEYS)[0]
+    return k.hex() or "-"
+
+
 def gen(tier, rng, shard, nshards):
+    """every case that runs the extraction is also run through the definitions translated from the source (first-yield forms)"""
+    n = 0
+    for stream, line in gen0(tier, rng, shard, nshards):
+        yield stream, line
+        w = line.split(" ")
+        if stream in ("ext", "extpi", "spec"):
+            yield "g-ext", " ".join(["g-ext"] + w[1:6])
+            n += 1
+            if n % 4 == 0:
+                yield "g-first", " ".join(["g-first"] + w[1:6])
+            if n % 3 == 0:
+                key = _first_key(w[4], w[6])
+                yield "g-find", f"g-find {w[1]} {w[2]} {'T' if n % 4 == 0 else 'F'} {key} {w[5]}"
+        elif stream == "left":
+            yield "g-left", "g-" + line
+        elif stream == "blocks" and w[3] == "T":
+            yield "g-first", " ".join(["g-first", w[1], w[2], w[4], w[5], w[6]])
+    for _ in range((4000 if tier == "thorough" else 400) // nshards):
+        r = rng.random()
+        if r < 0.8:
+            yield "pyu", "pyu hex " + C.hx(C.rbytes(rng, rng.choice([0, 1, 2, 7, 33])))
+        else:
+            yield "pyu", "pyu hexn " + rng.choice(["none", "int", "str", "list", "bool"])
+
+
+def gen0(tier, rng, shard, nshards):
     thorough = tier == "thorough"
     k = 0
 
@@ -929,6 +987,56 @@ def impl(stream, line):
             pk = "none" if m.payload_xor_key is None else C.hx(bytes(m.payload_xor_key))
             return _render_impl(bc) + f" guard {pk} {int(m.beacon_config_offset)} {int(m.guard_config_offset)} {int(m.checksum)}"
         return _render_impl(bc)
+    if stream == "pyu":
+        if w[1] == "hex":
+            return "ok " + C.unhx(w[2]).hex()
+        obj = {"none": None, "int": 5, "str": "ab", "list": [1], "bool": True}[w[2]]
+        return "ok " + obj.hex()
+    if stream == "g-left":
+        return impl("left", line[2:])
+    if stream == "g-ext":
+        out = impl("ext", " ".join(["ext"] + w[1:] + ["-"]))
+        t = out.split(" ")
+        n = int(t[4])
+        return " ".join(t[:5] + t[5 + n:])
+    if stream in ("g-first", "g-find"):
+        kind, B = w[1], int(w[2])
+        data = C.unhx(w[5])
+        path = None
+        if kind == "f":
+            path = _tmpfile(data)
+            fobj = open(path, "rb")
+        else:
+            fobj = io.BytesIO(data)
+            if kind[0] == "F":
+                fobj.seek(int(kind[1:] or "0"))
+        try:
+            with _Buf(B):
+                if stream == "g-first":
+                    ak, keys = w[3] == "T", parse_keys(w[4])
+                    g = beacon.iter_beacon_config_blocks(fobj, **C.drop_defaults(line, DOC_DEFAULTS, xor_keys=keys, all_xor_keys=ak))
+                    first = next(g, None)
+                    g.close()
+                    if first is None:
+                        return "none"
+                    blk, info = first
+                    return f"ok {C.hx(info['xorkey'])}:{C.tf(info['xorencoded'])}:{show_blk(blk)}"
+                key = b"" if w[4] == "-" else bytes.fromhex(w[4])
+                fh = fobj
+                if w[3] == "T":
+                    from dissect.cobaltstrike.xordecode import XorEncodedFile
+                    try:
+                        fh = XorEncodedFile.from_file(fobj)
+                    except ValueError:
+                        return "noview"
+                g = beacon.find_beacon_config_bytes(fh, key)
+                first = next(g, None)
+                g.close()
+                return ("none" if first is None else "ok " + show_blk(first)) + f" {fh.tell()}"
+        finally:
+            fobj.close()
+            if path:
+                os.unlink(path)
     if stream == "blocks":
         kind, B, xd, ak, keys, data = w[1], int(w[2]), w[3] == "T", w[4] == "T", parse_keys(w[5]), C.unhx(w[6])
         path = None
@@ -992,6 +1100,12 @@ def oracle(stream, line, out):
 
 
 def nontrivial(stream, line, out):
+    if stream in ("g-first", "g-find", "g-ext"):
+        return out.startswith("ok ")
+    if stream == "g-left":
+        return out not in ("not-reached",)
+    if stream == "pyu":
+        return out.startswith("ok ")
     if stream in ("ext", "extpi", "spec"):
         if not out.startswith("ok "):
             return False
@@ -1004,6 +1118,8 @@ def nontrivial(stream, line, out):
 
 
 def shrink(stream, line):
+    if stream == "pyu":
+        return
     if stream in ("ext", "extpi", "spec"):
         # keep the expectation token out of the shrinking (it is the builder's claim for the original payload)
         w = line.split(" ")
